@@ -665,7 +665,7 @@ func main() {
 			r.Fail(c, "", "Connect returned nil but the state is not Connected: "+out.line)
 		}
 	}
-	for _, b := range []string{"outcome:ok", "outcome:err", "outcome:panic", "mode:None", "mode:Sign", "mode:SignAndEncrypt"} {
+	for _, b := range []string{"outcome:ok", "outcome:err", "mode:None", "mode:Sign", "mode:SignAndEncrypt"} {
 		if r.Distribution[b] == 0 && o.Replay == "" {
 			r.Unreached = append(r.Unreached, b)
 		}
